@@ -149,13 +149,13 @@ Definition lookup_fault (faults : list (nat * fkind)) (k : nat) : option fkind :
 Section Exec.
 Variable lim : option nat.                    (* SetMaxCallStackSize; None = unlimited *)
 Variable faults : list (nat * fkind).         (* the k-th probe() call (0-based) performs the fault *)
-(* [fixed = false]: goja's algorithm as it is on the current tree (model I).
-   [fixed = true] : the repaired algorithm (model S): generator/async marker+context pops also run on the panic
-   path (F16), a recursive RunProgram whose own pushCtx overflows does not pop what it never pushed (F21), a
-   foreign Go panic leaving the outermost call drops the pending jobs and resets prg (F22).
-   Wherever I deviates from S the ghost field [leaked] grows (it is never read by the algorithm).
-   F17 (RunProgram's recover path) and F12 (iterator.return() on uncatchable unwinding) are repaired in /repo:
-   both sides of the model carry the repaired algorithm. *)
+(* [fixed = true] : goja's algorithm as it is on the current tree.
+   [fixed = false]: the algorithm before the repairs of F16 (generator/async marker+context pops did not run on the
+   panic path; 195c9cc), F21 (a recursive RunProgram whose own pushCtx overflowed popped the caller's context; 82237e3)
+   and F22 (a foreign Go panic leaving the outermost call kept prg and the pending jobs; 7d68b51), kept for the record:
+   wherever it deviates from the repaired algorithm the ghost field [leaked] grows (it is never read).
+   F17 (RunProgram's recover path, 60d9770) and F12 (iterator.return() on uncatchable unwinding, 22853aa) are repaired
+   on both sides. *)
 Variable fixed : bool.
 (* ghost: which recorded finding (16, 21, 22) the execution ran into *)
 Definition deviate (id : nat) (s : state) : state := set_leaked (id :: leaked s) s.
